@@ -180,7 +180,7 @@ func c25Check(c *hist.Case, r *evid.Rec) []evid.Disc {
 			}
 		} else {
 			r.Label(rt.name + "/alive-at-opportunity")
-			if len(got) == 0 && rt.name != "held-back" {
+			if len(got) == 0 {
 				ds = append(ds, evid.D("C25-unexpired-message-not-delivered-"+rt.name, "%s: no housekeeping tick ran past its expiry, yet it was not delivered at its opportunity (step %d)", desc, rt.oppStep))
 			}
 		}
@@ -273,7 +273,7 @@ func c25Gen(rt *rapid.T) *hist.Case {
 }
 
 func TestC25(t *testing.T) {
-	r := evid.New("C25", "rapid: server maximum message expiry 0/5/60/default, publisher (v5 with Message Expiry Interval absent/3/30/300, or v3.1.1) and subscriber (v5 / v3.1.1), up to three routes per case in generated order, each with 0-3 housekeeping ticks at virtual times on both sides of every boundary (boundary-5, +5, near, far) between publication and the copy's opportunity to be sent: retained store -> later subscriber; held back by Receive Maximum 1 -> released by the client's acknowledgement; queued for an offline persistent session -> reconnect. Oracle: a tick of the route's housekeeping later than publish time + effective interval (smaller non-zero of publisher interval and server maximum; 3 s margin, inside not asserted) => the unsent copy is never delivered; no such tick => it is delivered at its opportunity (retained and offline routes); every v5 delivery carries a Message Expiry Interval <= the effective interval, and carries one whenever the publisher set one. Non-trivial = a tick past expiry ran while an unsent copy existed; distinct by (history, route)")
+	r := evid.New("C25", "rapid: server maximum message expiry 0/5/60/default, publisher (v5 with Message Expiry Interval absent/3/30/300, or v3.1.1) and subscriber (v5 / v3.1.1), up to three routes per case in generated order, each with 0-3 housekeeping ticks at virtual times on both sides of every boundary (boundary-5, +5, near, far) between publication and the copy's opportunity to be sent: retained store -> later subscriber; held back by Receive Maximum 1 -> released by the client's acknowledgement; queued for an offline persistent session -> reconnect. Oracle: a tick of the route's housekeeping later than publish time + effective interval (smaller non-zero of publisher interval and server maximum; 3 s margin, inside not asserted) => the unsent copy is never delivered; no such tick => it is delivered at its opportunity (all three routes); every v5 delivery carries a Message Expiry Interval <= the effective interval, and carries one whenever the publisher set one. Non-trivial = a tick past expiry ran while an unsent copy existed; distinct by (history, route)")
 	defer r.Finish(t)
 	if evid.ReplayMode() {
 		evid.Replay(t, r, replayPath(), c25Check)
